@@ -250,7 +250,7 @@ def main(ck):
             sample=dict(xml=gm.xml, seed=seed, flags=fl, spring_norm=float(np.abs(fs).max()), damper_power=power,
                         gravcomp_norm=float(np.abs(fg).max())), labels=labels)
 
-  ck.run_hypothesis(test, st.tuples(model_strategy(ck.quick), mg.state_seed()), ck.budget(400, 8000), name='main')
+  ck.run_hypothesis(test, st.tuples(model_strategy(ck.quick), mg.state_seed()), ck.budget(800, 8000), name="main")
   ck.extra['worst_ratio_of_tolerance'] = {k_: float('%.3g' % v) for k_, v in worst.items()}
   ck.extra['tolerances'] = dict(K_LAW=K_LAW, TOL_GRAD=TOL_GRAD, H_FD=H_FD)
   ck.extra.update(stats)
